@@ -44,6 +44,7 @@ type Report struct {
 	EngineErrors []EngineErr
 	Results      []*CheckResult
 	Extra        []*CheckResult
+	UsedContracts map[string]bool
 	Unknown      map[string]bool
 	Notes        map[string]bool
 }
@@ -401,10 +402,14 @@ func (r *Report) writeEvidence(oblist []*Oblig, nObl, nDis int, knownHit []strin
 		}
 	}
 	var trusted []string
-	for _, k := range r.DB.Trusted {
-		trusted = append(trusted, "assumed contract: "+k)
+	for k := range r.UsedContracts {
+		if strings.HasPrefix(k, "assumed contract: ") {
+			trusted = append(trusted, k)
+		}
 	}
 	sort.Strings(trusted)
+	trusted = append(trusted, "library models written in Go inside govc: errors.New, fmt.Errorf (%w-aware), errors.Is, fmt.Fprintf (%s-aware), builtins append/copy/len/cap")
+	trusted = append(trusted, "theory axioms of /verif/contracts/lib/00_theory.spec (functional laws of AEAD, X25519, base64, HKDF/scrypt/HMAC as uninterpreted functions; wrapcols/sjoin definitions)")
 	trusted = append(trusted, "SMT solvers z3 5.1.0, z3 4.8.12, cvc5 1.0.3", "go/packages + go/ssa (x/tools v0.29.0) as the extraction of /repo's source", "govc's own symbolic executor and memory model (see DESIGN.md section 2)")
 	var unk []string
 	for u := range r.Unknown {
